@@ -77,8 +77,8 @@ def _run(r, scratch, i):
     d = scratch.case_dir("ext4")
     troot = os.path.join(d, "t")
     home = os.path.join(d, "home")
-    # a fifth of the histories: two --isolate roots (several members of a group below one root)
-    nroots = 2 if r.random() < 0.2 else 1
+    # three in ten histories: two --isolate roots (several members of a group below one root)
+    nroots = 2 if r.random() < 0.3 else 1
     spec, meta = tree.gen_dup_tree(r, n_classes=r.randrange(2, 5), max_members=4 if nroots == 1 else 6, hostile_p=0.0, n_dirs=r.randrange(0, 3),
                                    lens=[100, 3000, 20000, 70000, 140000], decoys=r.random() < 0.5, roots=nroots, hardlinks=r.random() < 0.3)
     tree.materialise(spec, troot)
